@@ -23,6 +23,9 @@ pub struct GenCfg {
     /// use %last_error% / :error: as call arguments in xor right branches
     pub error_vals: bool,
     pub var_targets: bool,
+    /// allow the right branch of a par to use variables defined in its left branch (a join: the
+    /// call waits until the data reaches its peer, which may never happen)
+    pub par_joins: bool,
 }
 
 impl GenCfg {
@@ -43,6 +46,7 @@ impl GenCfg {
             bad_json: false,
             error_vals: false,
             var_targets: true,
+            par_joins: true,
         }
     }
     pub fn fstream(n_peers: usize, budget: usize) -> GenCfg {
@@ -50,7 +54,7 @@ impl GenCfg {
     }
     /// streams but nothing that can fail (for the quiescence/exactly-once oracles)
     pub fn fstream_nofail(n_peers: usize, budget: usize) -> GenCfg {
-        GenCfg { errors: false, never: false, ..GenCfg::fstream(n_peers, budget) }
+        GenCfg { errors: false, never: false, par_joins: false, ..GenCfg::fstream(n_peers, budget) }
     }
 }
 
@@ -383,7 +387,9 @@ impl<'a> Gen<'a> {
             self.has_streams = true;
             let s = self.pick_or_new_stream(&shape);
             Out::Stream(s)
-        } else if r < 9 {
+        } else if r < 9 || !matches!(kind.as_str(), "f" | "arr" | "arro" | "str") {
+            // results of the other kinds carry no call-site tag: they always get an output variable,
+            // so that an output-less ("unused") result identifies its call site
             let n = self.fresh("x");
             self.scope.push(VarInfo { name: n.clone(), shape });
             Out::Scalar(n)
@@ -435,9 +441,14 @@ impl<'a> Gen<'a> {
                 let mark = self.scope.len();
                 let a = self.gen_ins(pctx);
                 // the right branch sees the left's definitions only sometimes (join behaviour)
-                let hidden: Vec<VarInfo> = if self.rng.chance(1, 2) { self.scope.split_off(mark) } else { vec![] };
+                let hidden: Vec<VarInfo> = if !self.cfg.par_joins || self.rng.chance(1, 2) { self.scope.split_off(mark) } else { vec![] };
                 let b = self.gen_ins(pctx);
                 self.scope.extend(hidden);
+                if !self.cfg.par_joins {
+                    // a par is complete as soon as one branch is: what follows it may run before the
+                    // other branch's variables exist, which is a join as well
+                    self.scope.truncate(mark);
+                }
                 par(a, b)
             }
             3 => {
@@ -723,14 +734,19 @@ impl<'a> Gen<'a> {
             let name = if !cands.is_empty() && self.rng.chance(2, 3) { self.rng.pick(&cands).name.clone() } else { self.fresh("n") };
             let mark = self.scope.len();
             // inside, the shadowed name is undefined until redefined: hide it
-            let saved: Vec<VarInfo> = self.scope.iter().filter(|v| v.name == name).cloned().collect();
+            // the shadowed entry is put back at its original index afterwards (enclosing constructs
+            // truncate the scope by length, so the order must not change)
+            let saved: Vec<(usize, VarInfo)> = self.scope.iter().enumerate().filter(|(_, v)| v.name == name).map(|(i, v)| (i, v.clone())).collect();
             self.scope.retain(|v| v.name != name);
             let mark2 = self.scope.len();
             // redefine it first
             let call = self.gen_call_out(Ctx { guard: false, ..ctx }, Some("f"), Some(Out::Scalar(name.clone())));
             let rest = self.gen_ins(ctx);
             self.scope.truncate(mark2.min(mark));
-            self.scope.extend(saved);
+            for (i, v) in saved {
+                let at = i.min(self.scope.len());
+                self.scope.insert(at, v);
+            }
             Ins::New(name, Box::new(seq(call, rest)))
         }
     }
